@@ -53,6 +53,9 @@ JT == Judge(Str, Typed, LowerTab)
 \* ---- design-level properties of the transcribed parser
 C02C05_Generic == Agrees(OutG, JG)
 C02C05_Typed == Agrees(OutT, JT)
+\* the reader demands an error class only where that defect is the only one, whatever the order of evaluation
+JudgeOrderFree == /\ OrderFree(JudgeRaw(Str, Generic, LowerTab), AllDefects(Str, Generic, LowerTab))
+                  /\ OrderFree(JudgeRaw(Str, Typed, LowerTab), AllDefects(Str, Typed, LowerTab))
 RT(out, shape) == out.ok => LET c == FormatSpec(out.v)  r == ParseF(c, shape, LowerTab)
                             IN r.ok /\ r.v = out.v /\ FormatSpec(r.v) = c
 C01_RoundTrip == RT(OutG, Generic) /\ RT(OutT, Typed)
